@@ -12,6 +12,7 @@ import (
 
 	"filippo.io/mldsa"
 	"filippo.io/sunlight"
+	"filippo.io/sunlight/verifharness/certs"
 	"filippo.io/torchwood"
 	"golang.org/x/mod/sumdb/note"
 	"golang.org/x/mod/sumdb/tlog"
@@ -1434,4 +1435,90 @@ func FamilyTamperBundle(r *Runner) {
 func mustTile(key string) TileID {
 	t, _ := ParseTilePath(key)
 	return t
+}
+
+// FamilyHTTP: submissions through the real add-chain / add-pre-chain handlers
+// with real chains; every acknowledgement's SCT is verified independently from
+// the submitted chain, resubmissions must get byte-identical SCTs, also after a
+// restart, and refused submissions leave no leaf.
+func FamilyHTTP(r *Runner) {
+	for _, base := range []int{0, 254} {
+		for _, order := range []string{"fifo", "lifo"} {
+			r.Scenario(fmt.Sprintf("http/b%d/%s", base, order), false, func(w *World) error {
+				a, err := Setup(w, base, 0)
+				if err != nil {
+					return err
+				}
+				w.Gate(false)
+				root := certs.NewRoot("verif root", certs.CAOptions{})
+				other := certs.NewRoot("unknown root", certs.CAOptions{})
+				inter := root.NewIntermediate("verif intermediate", certs.CAOptions{})
+				pre := inter.NewPreIssuer("verif preissuer", certs.CAOptions{})
+				if err := a.Log.SetRootsFromPEM(a.Ctx(), certs.PEM(root)); err != nil {
+					return err
+				}
+				w.Gate(true)
+				type sub struct {
+					leaf     *certs.Leaf
+					endpoint string
+					low      bool
+					accept   bool
+				}
+				mk := func(l *certs.Leaf, ep string, low, acc bool) sub { return sub{l, ep, low, acc} }
+				cases := []sub{
+					mk(inter.Issue(certs.LeafOptions{EKU: certs.ServerAuth}), "add-chain", false, true),
+					mk(inter.Issue(certs.LeafOptions{EKU: certs.ServerAuth, Precert: true}), "add-pre-chain", false, true),
+					mk(pre.Issue(certs.LeafOptions{EKU: certs.ServerAuth, Precert: true}), "add-pre-chain", false, true),
+					mk(root.Issue(certs.LeafOptions{EKU: certs.ServerAuth}), "add-chain", false, true),
+					mk(inter.Issue(certs.LeafOptions{EKU: certs.ServerAuth, SCTList: []byte{0, 0}}), "add-chain", true, true),
+					mk(inter.Issue(certs.LeafOptions{EKU: certs.ServerAuth, Precert: true}), "add-chain", false, false),
+					mk(inter.Issue(certs.LeafOptions{EKU: certs.ServerAuth}), "add-pre-chain", false, false),
+					mk(other.NewIntermediate("x", certs.CAOptions{}).Issue(certs.LeafOptions{EKU: certs.ServerAuth}), "add-chain", false, false),
+				}
+				var subs, good []*Sub
+				for _, c := range cases {
+					s := w.SubmitHTTPDriven(a, c.leaf.Chain(false), c.leaf.FullChain(), c.endpoint, c.low)
+					subs = append(subs, s)
+					if c.accept {
+						good = append(good, s)
+					}
+				}
+				w.Quiesce()
+				pol := FIFO
+				if order == "lifo" {
+					pol = LIFO
+				}
+				t := w.Go("round", a.RoundMust)
+				if !w.Drive(t, pol) {
+					return fmt.Errorf("round stuck")
+				}
+				w.Check("allAcked", good...)
+				w.Check("allDone", subs...)
+				// resubmissions: the same SCT, from the cache
+				var dups []*Sub
+				for _, c := range cases[:5] {
+					dups = append(dups, w.SubmitHTTPDriven(a, c.leaf.FullChain(), c.leaf.FullChain(), c.endpoint, c.low))
+				}
+				w.Check("allAcked", dups...)
+				t = w.Go("round2", a.RoundMust)
+				w.Drive(t, pol)
+				w.Crash(a)
+				w.Gate(false)
+				b := w.NewInc("A")
+				if err := b.Load(allFlags); err != nil {
+					return nil
+				}
+				var again []*Sub
+				for _, c := range cases[:5] {
+					again = append(again, b.SubmitHTTP(c.leaf.Chain(false), c.leaf.FullChain(), c.endpoint, c.low))
+				}
+				fl := inter.Issue(certs.LeafOptions{EKU: certs.ServerAuth})
+				again = append(again, b.SubmitHTTP(fl.Chain(false), fl.FullChain(), "add-chain", false))
+				w.Settle()
+				b.RoundMust()
+				w.Check("allAcked", again...)
+				return nil
+			})
+		}
+	}
 }
